@@ -304,9 +304,10 @@ pub fn call_readonly<O: ReadOnly + ?Sized>(rv: &mut Recv<O>, mi: usize, a: &mut 
 
 // Shapes -------------------------------------------------------------------------------------
 
-pub const SHAPES: [Meth; 26] = [
+pub const SHAPES: [Meth; 37] = [
     m("s_slice"), m("s_slice_u64"), m("s_slice_mut"), m("s_str"), m("s_opt"), m("s_opt_ref"), m("s_mixed"), m("s_res"), m("s_into"), m("s_struct"),
     m("s_cb"), m("s_iter"), m("s_ret_str"), m("s_ret_slice"), m("s_ret_mut_slice"), m("s_ret_opt_ref"), m("s_str_to_str"), m("s_vec"), m("s_mut_ref"), m("s_two_slices"), m("s_opt_then_slice"), m("s_two_mut"), m("s_unit_slice"), m("s_ret_unit_slice"), m("s_two_opts"), m("s_two_into"),
+    m("s_unit"), m("s_opt_mut"), m("s_ret_mut"), m("s_ret_opt_mut"), m("s_nz"), m("s_nested"), m("s_raw"), m("s_ctup"), m("s_copt"), m("s_cstr"), m("s_slices"),
 ];
 
 /// Source iterator for CIterator arguments: counts how far it was advanced.
@@ -514,6 +515,85 @@ pub fn call_shapes<O: Shapes + ?Sized>(rv: &mut Recv<O>, mi: usize, a: &mut A) -
         25 => {
             let o = need_mut!(rv);
             Ret::U(o.s_two_into(a.u(0) as u32, a.u(1) ^ 0x1_0000_0001))
+        }
+        26 => {
+            need_mut!(rv).s_unit(a.u(0));
+            Ret::Unit
+        }
+        27 => {
+            let o = need_mut!(rv);
+            let mut x = a.u(0);
+            let some = a.flag(1);
+            a.sent.push(if some { (&mut x as *mut u64 as usize, 1) } else { (0, 0) });
+            let b = o.s_opt_mut(if some { Some(&mut x) } else { None });
+            Ret::Multi(vec![Ret::B(b), Ret::U(x)])
+        }
+        28 => {
+            let o = need_mut!(rv);
+            let r = o.s_ret_mut();
+            a.sent.push((r as *mut u64 as usize, 1));
+            *r = r.wrapping_add(a.u(0));
+            Ret::U(*r)
+        }
+        29 => {
+            let o = need_mut!(rv);
+            let some = a.flag(0);
+            let r = o.s_ret_opt_mut(some);
+            a.sent.push((r.as_ref().map(|x| *x as *const u64 as usize).unwrap_or(0), r.is_some() as usize));
+            match r {
+                Some(v) => {
+                    *v ^= 0x5;
+                    Ret::Some_(Box::new(Ret::U(*v)))
+                }
+                None => Ret::None_,
+            }
+        }
+        30 => {
+            let v = core::num::NonZeroU32::new(a.u(0) as u32 & if a.flag(1) { 0 } else { !0 });
+            match rv.r().s_nz(v) {
+                Some(x) => Ret::Some_(Box::new(Ret::U(x.get() as u64))),
+                None => Ret::None_,
+            }
+        }
+        31 => {
+            let v = match a.raw(1).rem_euclid(3) { 0 => None, 1 => Some(None), _ => Some(Some(a.u(0))) };
+            match rv.r().s_nested(v) {
+                None => Ret::None_,
+                Some(None) => Ret::Some_(Box::new(Ret::None_)),
+                Some(Some(x)) => Ret::Some_(Box::new(Ret::Some_(Box::new(Ret::U(x))))),
+            }
+        }
+        32 => {
+            let src = a.u(0);
+            let mut dst = 0u64;
+            a.sent.push((&src as *const u64 as usize, 1));
+            a.sent.push((&mut dst as *mut u64 as usize, 1));
+            let r = rv.r().s_raw(&src, &mut dst);
+            Ret::Multi(vec![Ret::B(r == &dst as *const u64), Ret::U(dst)])
+        }
+        33 => {
+            let r = rv.r().s_ctup(CTup2(a.u(0), a.i32(1)));
+            Ret::Multi(vec![Ret::U(r.0 as u64), Ret::U(r.1), Ret::I(r.2 as i64)])
+        }
+        34 => {
+            let arg: COption<u64> = if a.flag(1) { Some(a.u(0)).into() } else { None.into() };
+            let r: Result<u64, i32> = rv.r().s_copt(arg).into();
+            match r {
+                Ok(v) => Ret::Ok_(Box::new(Ret::U(v))),
+                Err(e) => Ret::Err_(Box::new(Ret::I(e as i64))),
+            }
+        }
+        35 => {
+            let s = std::ffi::CString::new(a.string(0).replace('\0', "")).unwrap();
+            Ret::U(rv.r().s_cstr(ReprCStr::from(s.as_c_str())))
+        }
+        36 => {
+            let b0 = a.bytes(0);
+            let b1 = a.bytes(1);
+            let v = [CSliceRef::from(&b0[..]), CSliceRef::from(&b1[..]), CSliceRef::from(&b0[..b0.len() / 2])];
+            let n = (a.raw(2).rem_euclid(4)) as usize;
+            a.note(&v[..n.min(3)]);
+            Ret::U(rv.r().s_slices(&v[..n.min(3)]) as u64)
         }
         23 => {
             let r = rv.r().s_ret_unit_slice();
